@@ -38,10 +38,10 @@ UNITS = [
          replay=dict(src='c06_await_own_last.cpp', flags=['-O1', '-g']),
          note='coroutine mode (a ready queue is installed); the normal-mode branch re-enters await_suspend under a freshly installed queue and is not covered by this unit'),
     # bounded siblings (no loop contracts, unwinding): decide the same contracts on points of <= 5 handles when a loop was rewritten
-    unit('suspend_now_bounded', 'sp_suspend_now', SN_RX, loop=False, **dict(SPQ, harness='h_suspend_now', defines=['CV_QUEUE_INSTANCE_PTR QINST', 'CV_BOUNDED_FALLBACK 1', 'CV_BOUND_N 5'],
+    unit('suspend_now_bounded', 'sp_suspend_now', SN_RX, loop=False, **dict(SPQ, harness='h_suspend_now', defines=['CV_QUEUE_INSTANCE_PTR QINST', 'CV_BOUNDED_FALLBACK 1', 'CV_BOUND_N 5', 'CV_COUNT_X 1'],
          unwind=24, kind='bounded', bounded='suspend points of <= 5 handles (inline and heap representation), loops unwound instead of loop contracts', timeout=900, object_bits=9)),
     unit('await_suspend_bounded', 'sp_await_suspend', AS_RX, loop=False, extra_types=SPT, extra_boundary=[r'install_queue_and_call<cocls::suspend_point<void>::await_suspend'],
-         spec=SPQ['spec'], harness='h_await_suspend', defines=['CV_QUEUE_INSTANCE_PTR QINST', 'SN_CF AS_CFP', 'CV_BOUNDED_FALLBACK 1', 'CV_BOUND_N 5'],
+         spec=SPQ['spec'], harness='h_await_suspend', defines=['CV_QUEUE_INSTANCE_PTR QINST', 'SN_CF AS_CFP', 'CV_BOUNDED_FALLBACK 1', 'CV_BOUND_N 5', 'CV_COUNT_X 1'],
          unwind=8, kind='bounded', bounded='suspend points of <= 5 handles (inline and heap representation), loops unwound instead of loop contracts', timeout=900, object_bits=9),
     unit('clear', 'sp_clear', r'^cocls::suspend_point<void>::clear\(\)$', extra_types=SPT, extra_names={'sp_suspend_now': SN_RX}, extra_boundary=[SN_RX], spec=SPQ['spec']),
     unit('dtor', 'sp_dtor', r'^cocls::suspend_point<void>::~suspend_point\(\)$', extra_types=SPT, extra_names={'sp_suspend_now': SN_RX}, extra_boundary=[SN_RX], spec=SPQ['spec']),
